@@ -656,7 +656,7 @@ class ObjTranslator:
 
     def __init__(self, fn, *, src_file, lean_name, kind, siblings, externals=(), ignored_calls=(), params=None,
                  has_self=True, stop_before=None, result_locals=None, doc="", method_externals=(), consts=None,
-                 state=None, state_siblings=None, enter_ok=True):
+                 state=None, state_siblings=None, enter_ok=True, operators=None, constructors=None, owner_cls=None):
         self.fn, self.src_file, self.lean_name, self.kind = fn, src_file, lean_name, kind
         self.siblings: dict[str, Sibling] = siblings
         self.externals, self.ignored_calls = set(externals), set(ignored_calls)
@@ -669,6 +669,9 @@ class ObjTranslator:
         self.state = state or self.recv
         self.state_siblings: dict[str, Sibling] = dict(state_siblings or {})
         self.enter_ok = enter_ok
+        self.operators: dict[str, Sibling] = dict(operators or {})
+        self.constructors: dict[str, Sibling] = dict(constructors or {})     # class name -> its `<Cls>_new`
+        self.owner_cls = owner_cls
         self.has_self = has_self
         self.params = params
         self.stop_before = stop_before          # predicate on a statement: translation ends before it
@@ -713,6 +716,17 @@ class ObjTranslator:
 
     def is_self(self, e) -> bool:
         return self.has_self and isinstance(e, ast.Name) and e.id == self.recv
+
+    def same_class(self, e) -> bool:
+        """a parameter annotated with the class that owns this method (`other: "Options"`)"""
+        if not (isinstance(e, ast.Name) and self.owner_cls):
+            return False
+        for a in self.fn.args.args:
+            if a.arg == e.id and a.annotation is not None:
+                an = a.annotation
+                return (isinstance(an, ast.Name) and an.id == self.owner_cls) or \
+                       (isinstance(an, ast.Constant) and an.value == self.owner_cls)
+        return False
 
     def is_state(self, e) -> bool:
         return self.kind == "mut" and isinstance(e, ast.Name) and e.id == self.state
@@ -767,6 +781,10 @@ class ObjTranslator:
                 self.fail(e, "dict unpacking")
             items = ", ".join(f"({self.atom(k)}, {self.atom(v)})" for k, v in zip(e.keys, e.values))
             return f"(OVal.dict [{items}])", True
+        if isinstance(e, ast.BinOp) and isinstance(e.op, ast.BitAnd) and "__and__" in self.operators:
+            # `a & b` on `Options`: the translated `Options.__and__` (the left operand is its receiver)
+            sb = self.operators["__and__"]
+            return f"{sb.lean_name} W {self.atom(e.left)} {self.atom(e.right)}", False
         if isinstance(e, ast.BinOp):
             op = {ast.Sub: "sub", ast.Add: "concat"}.get(type(e.op))
             if not op:
@@ -793,11 +811,11 @@ class ObjTranslator:
                 self.fail(e, "slice")
             return f"index {self.atom(e.value)} {self.atom(e.slice)}", False
         if isinstance(e, ast.Attribute):
-            if self.is_self(e.value) and e.attr in self.siblings and self.siblings[e.attr].is_property:
+            if (self.is_self(e.value) or self.same_class(e.value)) and e.attr in self.siblings and self.siblings[e.attr].is_property:
                 sb = self.siblings[e.attr]
                 if sb.kind != "pure":
                     self.fail(e, "property with effects")
-                return f"{sb.lean_name} W {self.recv_l}", False
+                return f"{sb.lean_name} W {self.atom(e.value)}", False
             return f"getattr {self.atom(e.value)} {json.dumps(e.attr)}", False
         if isinstance(e, ast.Call):
             return self.call(e)
@@ -812,6 +830,20 @@ class ObjTranslator:
         f = e.func
         if self.exc_class_call(e):
             return self.exc_obj(e), True
+        # constructing an instance: `RuntimeContext(k=v, …)` / `self.__class__(k=v, …)` -> the translated `__init__`
+        cname = None
+        if isinstance(f, ast.Name) and f.id in self.constructors:
+            cname = f.id
+        elif isinstance(f, ast.Attribute) and f.attr == "__class__" and self.is_self(f.value) and self.owner_cls:
+            cname = self.owner_cls
+        if cname is not None:
+            if len(e.keywords) == 1 and e.keywords[0].arg is None and not e.args:
+                # `self.__class__(**specs)`: built from a dict of keyword arguments — the world's
+                return f"W.ext {json.dumps(cname + '(**)')} [{self.atom(e.keywords[0].value)}]", False
+            if cname in self.constructors:
+                sb = self.constructors[cname]
+                return f"{sb.lean_name} W {' '.join(self.atom(x) for x in sb.positional(self, e))}", False
+            self.fail(e, f"constructor of {cname}")
         if isinstance(f, ast.Attribute) and self.is_self(f.value) and f.attr in self.siblings and not self.siblings[f.attr].is_property:
             sb = self.siblings[f.attr]
             if sb.kind != "pure":
@@ -829,6 +861,8 @@ class ObjTranslator:
                 return f"len {self.atom(a[0])}", False
             if n == "list" and len(a) == 1:
                 return f"toList {self.atom(a[0])}", False
+            if n == "dict" and len(a) == 1:
+                return f"dictCopy {self.atom(a[0])}", False
             if n == "getattr" and len(a) == 2:
                 return f"getattrW W {self.atom(a[0])} {self.atom(a[1])}", False
             if n in self.siblings and not self.siblings[n].is_property and self.siblings[n].kind == "fn":
@@ -1148,6 +1182,9 @@ class ObjTranslator:
                 if m == "clear" and not a:
                     read, write = self.container_target(c.func.value)
                     return [write(f"dictClear {read}", ind)]
+                if m == "update" and len(a) == 1:
+                    read, write = self.container_target(c.func.value)
+                    return [write(f"dictUpdate {read} {self.atom(a[0])}", ind)]
             if isinstance(c.func, ast.Attribute) and c.func.attr == "sort" and not c.args and len(c.keywords) == 1 \
                     and c.keywords[0].arg == "key" and isinstance(c.keywords[0].value, ast.Lambda):
                 lam = c.keywords[0].value
@@ -1229,7 +1266,7 @@ def assigned_names_obj(body) -> set[str]:
                     elif isinstance(t, ast.Tuple):
                         out |= {x.id for x in t.elts if isinstance(x, ast.Name)}
             elif isinstance(n, ast.Expr) and isinstance(n.value, ast.Call) and isinstance(n.value.func, ast.Attribute) \
-                    and n.value.func.attr in ("append", "extend", "clear", "sort") and isinstance(n.value.func.value, ast.Name):
+                    and n.value.func.attr in ("append", "extend", "clear", "sort", "update") and isinstance(n.value.func.value, ast.Name):
                 out.add(n.value.func.value.id)
     return out
 
@@ -1311,7 +1348,8 @@ def gen_group(repo: Path, notes: list, *, src_file: str, cls_name: str | None, f
                                result_locals=spec.get("result_locals"), doc=spec.get("doc", ""),
                                method_externals=spec.get("method_externals", ()), consts=spec.get("consts"),
                                state=spec.get("state"), state_siblings=spec.get("state_siblings"),
-                               enter_ok=spec.get("enter_ok", True))
+                               enter_ok=spec.get("enter_ok", True), operators=spec.get("operators"),
+                               constructors=spec.get("constructors"), owner_cls=spec.get("cls", cls_name))
             out.append(tr.translate() + "\n")
         except Untranslatable as e:
             notes.append(f"untranslatable {e} ({cls_name or ns}.{py})")
@@ -1356,15 +1394,43 @@ def gen_options(repo: Path, notes: list, gate_ok: bool) -> str:
         ],
         ignored_calls={"warning_settings.warn"}, gate_ok=gate_ok)
     body += _group_body(part)
+    # --- Options.vacuum, Options.__and__
+    part = gen_group(
+        repo, notes, src_file=src, cls_name="Options", ns="Options", title="",
+        funcs=[{"py": "vacuum", "lean": "Options_vacuum", "arity": 1},
+               {"py": "__and__", "lean": "Options_and", "arity": 2}], gate_ok=gate_ok)
+    body += _group_body(part)
+    tree_cls = find_class(tree, "Options")
+    and_fn = find_method(tree_cls, "__and__")
+    operators = {"__and__": Sibling("__and__", "Options_and", "pure", 1, fn=and_fn)} if and_fn else {}
     # --- RuntimeContext
+    rc = find_class(tree, "RuntimeContext")
+    init_fn = find_method(rc, "__init__")
+    new_sib = Sibling("__init__", "RuntimeContext_new", "pure", 0, fn=init_fn) if init_fn else None
     part = gen_group(
         repo, notes, src_file=src, cls_name="RuntimeContext", ns="Options", title="",
         funcs=[
             {"py": "__init__", "lean": "RuntimeContext_init", "kind": "mut", "arity": 7},
+        ],
+        externals={"Options"}, gate_ok=gate_ok)
+    body += _group_body(part)
+    if init_fn is not None:
+        params = [a.arg for a in init_fn.args.args if a.arg != "self"]
+        ps = " ".join(f"({lname(x)} : OVal V)" for x in params)
+        body += ["/-- `RuntimeContext(…)`: a new instance through `__init__`; what `__init__` raises, the construction raises -/",
+                 f"def RuntimeContext_new (W : World V) {ps} : M V (OVal V) := do",
+                 f"  let r ← RuntimeContext_init W (OVal.obj \"RuntimeContext\" []) {' '.join(lname(x) for x in params)}",
+                 "  match r.2 with", "  | Outcome.raise e => throw (Exc.raised e)", "  | Outcome.ret _ => pure r.1", ""]
+    ctors = {"RuntimeContext": new_sib} if new_sib else {}
+    part = gen_group(
+        repo, notes, src_file=src, cls_name="RuntimeContext", ns="Options", title="",
+        funcs=[
+            {"py": "enter", "arity": 3, "operators": operators, "constructors": ctors},
             {"py": "raise_error", "kind": "mut", "arity": 1},
             {"py": "collect_tmp_error", "kind": "mut", "arity": 2},
             {"py": "clear_tmp_error", "kind": "mut", "arity": 1},
             {"py": "handle_error", "kind": "mut", "arity": 3},
+            {"py": "make_context", "cls": "Options", "lean": "Options_make_context", "arity": 4, "constructors": ctors},
         ],
         externals={"Options"}, gate_ok=gate_ok)
     body += _group_body(part)
